@@ -72,6 +72,9 @@ def run_property(prop, tier, repo=None, facts_by_config=None, write=True, quiet=
                     okw, verdict = res[k]
                     desc = ("user code that must not type-check is rejected by rustc (%s)" % w) if kind == "forbidden" else ("the compiling twin of %s type-checks" % w)
                     report.check("WITNESS", k, okw, desc, ("witness %s: code that must be rejected compiles (or fails with another error code)" % w) if kind == "forbidden" else ("twin of %s no longer compiles: the witness is vacuous" % w))
+    liveness = None
+    if tier == "thorough" and extraction_error is None and not os.environ.get("ENR_NO_LIVENESS"):
+        liveness = checker_liveness(prop, repo)
     wall = time.time() - t0
 
     known = [k for k in load_known_findings() if k.get("property") == prop and k.get("status") == "known"]
@@ -108,6 +111,10 @@ def run_property(prop, tier, repo=None, facts_by_config=None, write=True, quiet=
                 json.dump(v.to_json(), f, indent=1)
         lines.append("  violated %s at %s in %s [%s]: %s" % (v.key, v.sp, v.fn, ",".join(v.configs), v.msg))
         lines.append("VIOLATION property=%s replay=%s" % (prop, path))
+    if liveness is not None:
+        lines.append("  checker liveness: %d/%d property-breaking variants of this tree reported%s" % (
+            sum(1 for v in liveness.values() if v == "reported"), sum(1 for v in liveness.values() if v != "not applicable"),
+            "".join("; NOT reported: " + k for k, v in liveness.items() if v == "missed")))
     if not quiet:
         try:
             print("\n".join(lines), flush=True)
@@ -115,11 +122,72 @@ def run_property(prop, tier, repo=None, facts_by_config=None, write=True, quiet=
             pass
 
     if write:
-        write_evidence(prop, tier, report, wall, len(new_violations), mod, known_hit)
+        write_evidence(prop, tier, report, wall, len(new_violations), mod, known_hit, liveness)
     return report, new_violations
 
 
-def write_evidence(prop, tier, report, wall, nviol, mod, known_hit):
+def checker_liveness(prop, repo):
+    """Thorough tier only: the rule pack is also run on every committed
+    property-breaking variant of the *current* tree for this property
+    (selftest/mutants and seeded/: one small patch each, applied to a scratch copy outside
+    /repo and /verif that is removed afterwards) and must report each of them.
+    This is a statement about the checker (its rules still bite on this tree),
+    not about the property: a variant that is no longer reported is listed in
+    the evidence and in the output, it is not a VIOLATION of the property."""
+    import shutil
+    import subprocess
+    import tempfile
+    st = os.path.join(VERIF, "selftest")
+    try:
+        with open(os.path.join(st, "mutants", "meta.json")) as f:
+            meta = json.load(f)
+    except OSError:
+        return None
+    out = {}
+    src = repo or ex.REPO
+    todo = []
+    for name, m in sorted(meta.items()):
+        exp = [e for e in m.get("expect", []) if e[0] == prop]
+        if exp:
+            todo.append((name, os.path.join(st, "mutants", name + ".patch"), exp))
+    # the independently seeded changes written against this property (any report by this pack counts)
+    sd = os.path.join(VERIF, "seeded")
+    if os.path.isdir(sd):
+        for name in sorted(os.listdir(sd)):
+            mp = os.path.join(sd, name, "meta.json")
+            if os.path.exists(mp):
+                try:
+                    sm = json.load(open(mp))
+                except ValueError:
+                    continue
+                if sm.get("breaks") == prop:
+                    todo.append(("seeded/" + name, os.path.join(sd, name, "patch.diff"), [(prop, "")]))
+    for name, patch, exp in todo:
+        d = tempfile.mkdtemp(prefix="enr-liveness-")
+        try:
+            for item in ("Cargo.toml", "Cargo.lock", "src", "tests"):
+                pth = os.path.join(src, item)
+                if os.path.isdir(pth):
+                    shutil.copytree(pth, os.path.join(d, item))
+                elif os.path.exists(pth):
+                    shutil.copy(pth, os.path.join(d, item))
+            r = subprocess.run(["patch", "-p1", "-s", "--no-backup-if-mismatch", "-i", patch], cwd=d, stdout=subprocess.PIPE, stderr=subprocess.STDOUT)
+            if r.returncode != 0:
+                out[name] = "not applicable"  # the tree has moved on; the variant no longer applies
+                continue
+            try:
+                rep, viols = run_property(prop, "quick", repo=d, write=False, quiet=True)
+            except Exception:
+                out[name] = "missed"
+                continue
+            hit = any(frag in v.key for v in viols for _, frag in exp)
+            out[name] = "reported" if hit else "missed"
+        finally:
+            shutil.rmtree(d, ignore_errors=True)
+    return out
+
+
+def write_evidence(prop, tier, report, wall, nviol, mod, known_hit, liveness=None):
     obs = list(report.obligations.values())
     nontrivial = [o for o in obs if o.get("nontrivial", True)]
     samples = []
@@ -163,6 +231,13 @@ def write_evidence(prop, tier, report, wall, nviol, mod, known_hit):
         "wall_s": round(wall, 2),
         "violations": nviol,
     }
+    if liveness is not None:
+        ev["coverage"]["checker_liveness"] = {
+            "what": "the rule pack run on each committed property-breaking variant of the current tree (selftest/mutants and the independently seeded changes under seeded/ for this property); each must be reported",
+            "variants": liveness,
+            "reported": sum(1 for v in liveness.values() if v == "reported"),
+            "applicable": sum(1 for v in liveness.values() if v != "not applicable"),
+        }
     os.makedirs(os.path.join(VERIF, "evidence"), exist_ok=True)
     with open(os.path.join(VERIF, "evidence", prop + ".json"), "w") as f:
         json.dump(ev, f, indent=1)
